@@ -235,8 +235,8 @@ def _pool_run(jobs, workers, deadline_each=900):
 def _fresh_interpreter_digests(prop, seed, tier, n, root, hashseed):
     env = dict(os.environ, PYTHONHASHSEED=str(hashseed), VERIF_SEED=str(seed),
                VERIF_BOLTONS_ROOT=root, PYTHONDONTWRITEBYTECODE='1')
-    cmd = [sys.executable, '-B', os.path.join(VERIF_DIR, 'main.py'), prop,
-           '--digests', str(n), '--tier', tier]
+    cmd = [sys.executable] + (['-O'] if sys.flags.optimize else []) + ['-B', os.path.join(VERIF_DIR, 'main.py'), prop,
+                                                                       '--digests', str(n), '--tier', tier]
     p = subprocess.run(cmd, env=env, capture_output=True, text=True, timeout=600)
     if p.returncode != 0:
         raise HarnessError('fresh interpreter failed: ' + p.stderr[-2000:])
@@ -282,8 +282,10 @@ def minimise(mod, case, viol):
 
 def write_replay(mod, seed, kind, idx, case, out, root, minimised_from=None):
     os.makedirs(OUT_DIR, exist_ok=True)
-    path = os.path.join(OUT_DIR, '%s-%d-%s%d.json' % (mod.PROPERTY, seed, 'f' if kind == 'fixed' else '', idx))
+    path = os.path.join(OUT_DIR, '%s-%d-%s%s%d.json' % (mod.PROPERTY, seed, 'O' if sys.flags.optimize else '',
+                                                          'f' if kind == 'fixed' else '', idx))
     doc = {'format': 1, 'property': mod.PROPERTY, 'engine': mod.ENGINE, 'seed': seed,
+           'python_optimize': sys.flags.optimize,
            'run': idx, 'run_kind': kind, 'case': case, 'violation': out.violation,
            'digest': out.digest,
            'source_fingerprint': source_fingerprint(root, mod.SOURCE_FILES),
@@ -342,7 +344,8 @@ def run_check(mod, tier, seed, root, budget_s=None, workers=None, min_runs=None,
           % (mod.PROPERTY, tier, seed, root, workers, min_runs, budget_s), flush=True)
 
     total = _summ_new()
-    nfixed = len(mod.fixed_cases(tier))
+    subpass = bool(os.environ.get('VERIF_SUBPASS'))
+    nfixed = 0 if subpass else len(mod.fixed_cases(tier))
 
     def jobs():
         for s in range(0, nfixed, cfg.get('fixed_block', 50)):
@@ -431,6 +434,14 @@ def run_check(mod, tier, seed, root, budget_s=None, workers=None, min_runs=None,
         print('VIOLATION property=%s replay=%s' % (mod.PROPERTY, path))
         exit_code = 1
 
+    if not subpass and not sys.flags.optimize:
+        rc2, info = _optimized_pass(mod, tier, seed, root, budget_s, min_runs, workers)
+        total['extra']['optimized_interpreter_pass'] = info
+        if rc2 == 2:
+            print('HARNESS-ERROR the pass under python -O failed: %s' % info.get('tail', ''))
+            return 2
+        if rc2 == 1:
+            exit_code = 1
     wall = time.monotonic() - t0
     write_evidence(mod, tier, seed, total, nfixed, wall, len(reported), nviol,
                    sorted(known_lines), workers)
@@ -439,6 +450,41 @@ def run_check(mod, tier, seed, root, budget_s=None, workers=None, min_runs=None,
           % (mod.PROPERTY, total['runs'], nfixed, total['runs'] - nfixed, wall, total['steps'],
              len(total['nontrivial']), nviol, len(reported), sorted(known_lines)), flush=True)
     return exit_code
+
+
+def _optimized_pass(mod, tier, seed, root, budget_s, min_runs, workers):
+    """A short pass of the same check in an interpreter started with -O (assert statements are not executed,
+    __debug__ is False): the interpreter's configuration is part of the environment the properties quantify
+    over, like the hash seed.  Seeded runs only; its violations are reported like any other (their replay
+    files record the flag, and --replay re-executes under it)."""
+    import subprocess
+    import tempfile
+    main_py = os.path.join(os.path.dirname(os.path.dirname(os.path.abspath(__file__))), 'main.py')
+    tmp = tempfile.mkdtemp(prefix='verif-opt-evidence-')
+    env = dict(os.environ, VERIF_SUBPASS='1', VERIF_EVIDENCE_DIR=tmp, VERIF_OUT_DIR=OUT_DIR,
+               PYTHONHASHSEED=os.environ.get('PYTHONHASHSEED', '0'), PYTHONDONTWRITEBYTECODE='1')
+    cmd = [sys.executable, '-O', '-B', '-X', 'faulthandler', main_py, mod.PROPERTY, '--tier', tier, '--seed', str(seed),
+           '--root', root, '--budget', '%.1f' % max(2.0, 0.15 * budget_s), '--min-runs', str(max(200, min_runs // 8)),
+           '--workers', str(workers)]
+    try:
+        p = subprocess.run(cmd, env=env, capture_output=True, text=True, timeout=max(600, 4 * budget_s))
+    except subprocess.TimeoutExpired:
+        return 2, {'tail': 'timed out'}
+    finally:
+        import shutil
+        shutil.rmtree(tmp, ignore_errors=True)
+    info = {'exit': p.returncode, 'runs': 0}
+    for line in p.stdout.splitlines():
+        if line.startswith('violation class=') or line.startswith('VIOLATION '):
+            print(line + ('  [under python -O]' if line.startswith('violation class=') else ''))
+        elif line.startswith(mod.PROPERTY + ': ') and ' runs (' in line:
+            try:
+                info['runs'] = int(line.split(': ', 1)[1].split(' runs', 1)[0])
+            except ValueError:
+                pass
+    if p.returncode == 2:
+        info['tail'] = (p.stdout + p.stderr)[-600:]
+    return p.returncode, info
 
 
 def _clip(obj, limit=300):
